@@ -10,7 +10,9 @@ TARGETS = ['MindsVerif.Props.C07']
 THEOREMS = ['MindsVerif.Props.C07.' + n for n in (
     'C07_std', 'C07_mysql', 'C07_codec_for_target', 'C07_paths', 'C07_structure', 'C07_tostring_codec',
     'C07_fallback_mysql', 'C07_fallback_std_partial', 'C07_review_fallback_witness', 'C07_old_tostring_partial', 'C07_old_witness_mysql', 'C07_old_witness_mysql_value',
-    'C07_old_witness_tostring')]
+    'C07_old_witness_tostring',
+    # round 5: float constants through Constant.get_string (Model/FloatPos.lean)
+    'C07_float_positional', 'C07_float_plain', 'C07_witness_float_fixed_decimals')]
 ASSUME = [
     'standard-SQL string literal rules (LitRender.stdLex: only the doubled quote is special) — validated in this run against sqlite3 '
     '(SELECT <literal> returns the value); PostgreSQL (standard_conforming_strings), MSSQL, Oracle are assumed to follow the same rules',
@@ -24,7 +26,10 @@ ASSUME = [
     'the default get_string(ast) falls back to str(ast) when the renderer refuses a tree: driven by the fallback probe (construction paths x '
     'refused trees x special constants); theorems C07_fallback_mysql / _std_partial, the complement is an open known finding',
     'Codec.constantToString / readString (the library codec) are tied to the code by the C04 run',
-    'non-string constants (int, float, bool, NULL, dates) are delegated to SQLAlchemy / str(): covered by the typed probe only',
+    'non-string constants: bool, NULL, dates, ints are delegated to SQLAlchemy / str() and covered by the typed and the exact-number probes only; '
+    'floats: float_to_str is hand-modelled FROM THE repr TEXT ON (Model/FloatPos.lean; tie = `float-print` stream over floats of all magnitudes), '
+    'repr(float) and float(text) are CPython\'s (shortest round-trip repr, correctly rounded reading, float(repr(x)) == x) and are trusted; the '
+    'SQLAlchemy renderings of floats (repr, exponent form) are covered by the exact-number probe only; inf / nan have no SQL literal and are outside',
 ]
 RENDER_DIALECTS = ('mysql', 'postgres', 'postgresql', 'sqlite', 'mssql', 'oracle')
 STD = ('postgres', 'postgresql', 'sqlite', 'mssql', 'oracle')
@@ -433,6 +438,109 @@ def std_lex_bs(s):
     return None if r is None else (lexh.denote(r[0], "'"), r[1])
 
 
+
+# ------------------------------------------------------------------ round 5: numbers of every magnitude, exact read-back
+def number_values(rng, quick):
+    """floats of all magnitudes (every decade of the double range, shortest / 16-17 digit mantissas, denormals, both
+    signs, repr with and without exponent) and integers of all sizes"""
+    import struct
+    fl = [0.5, 1234.5678, 1e-05, 1e+16, 2.5e+20, 1.5e-07, 1.2345678e-05, 6.62607015e-34, 2.2250738585072014e-308, 5e-324,
+          1.7976931348623157e308, 0.1 + 0.2, 1e22, 1e23, 9999999999999998.0, 1e15, 0.0001, 9.999e-05, 123456789.12345679, 0.0, -0.0,
+          1e-4, 1.0000000000000002e-05, 9.999999999999999e-05, 1e+17, 4.9e-324, 2.5e-07, 1 / 3, 2 / 3 * 1e-10, 1e100, 1e-100, 7e-10]
+    for e in range(-323, 309, 4 if quick else 1):
+        e2 = e + rng.randrange(4) if quick else e
+        for m in ('1', '1.5', '1.2345678', '9.999999999999999', repr(rng.uniform(1, 10))):
+            try:
+                v = float('%se%d' % (m, min(e2, 308)))
+            except Exception:
+                continue
+            if v == v and v not in (float('inf'), float('-inf')):
+                fl.append(v if rng.random() < 0.8 else -v)
+    for _ in range(200 if quick else 5000):
+        v = struct.unpack('<d', bytes(rng.randrange(256) for _ in range(8)))[0]
+        if v == v and abs(v) != float('inf'):
+            fl.append(v)
+    ints = [0, 1, -1, 7, -5, 2 ** 31, -2 ** 31, 2 ** 63, 2 ** 64 + 1, 10 ** 30, -(10 ** 20), 10 ** 15, 10 ** 16, 123456789012345678]
+    ints += [rng.randrange(10 ** rng.randint(1, 40)) * rng.choice([1, 1, -1]) for _ in range(40 if quick else 1000)]
+    return list(dict.fromkeys((type(v).__name__, repr(v)) for v in fl + ints)), fl + ints
+
+
+def locate(position, q):
+    """the node built by build_multi(position, [v]) in a parsed statement"""
+    if position == 'select':
+        return q.targets[0]
+    if position == 'where':
+        return q.where.args[1]
+    if position == 'in':
+        n = q.where.args[1]         # a one-element list `IN (x)` is read as the parenthesised expression x
+        return n.items[0] if type(n).__name__ == 'Tuple' else n
+    if position == 'insert':
+        return q.values[0][0]
+    if position == 'update':
+        return q.update_columns['c0']
+    raise ValueError(position)
+
+
+def const_state(node):
+    """(type name, repr) of the number a node denotes; `-<number>` counts as the negative number"""
+    cls = type(node).__name__
+    if cls == 'Constant' and type(node.value) in (int, float):
+        return (type(node.value).__name__, repr(node.value))
+    if cls == 'UnaryOperation' and str(node.op) == '-' and len(node.args) == 1 and type(node.args[0]).__name__ == 'Constant' \
+            and type(node.args[0].value) in (int, float):
+        return (type(node.args[0].value).__name__, repr(-node.args[0].value))
+    return ('other', cls)
+
+
+def probe_number_exact(path, dialect, position, v):
+    """an int / float constant in a statement reads back as EXACTLY that number (same type, floats bit-exact).
+    path 'tostring': the library's own text — one literal of the library grammar (`-?digits` / `-?digits.digits`, no
+    exponent form exists there) AND parse_sql(dialect) finds the same number at the same place;
+    path 'render': the SQLAlchemy text for `dialect` — one numeric literal (exponent form allowed) with exactly this value"""
+    want = (type(v).__name__, repr(v))
+    why = None
+    try:
+        if path == 'tostring':
+            sql = build_multi(position, [v]).to_string()
+        else:
+            if frame(dialect, position) is None:
+                return None
+            sql = new_renderer(dialect).get_string(build_multi(position, [v]), with_failback=False)
+    except Exception as e:
+        sql, why = None, 'printing raises %s: %s' % (type(e).__name__, e)
+    if why is None:
+        lits = extract_literals(position, sql)
+        if lits is None or len(lits) != 1:
+            why = 'expected one literal, found %r' % (lits,)
+        else:
+            lit = lits[0]
+            if path == 'tostring':
+                pat = r'-?[0-9]+' if isinstance(v, int) else r'-?[0-9]+\.[0-9]+'
+            else:
+                pat = r'-?[0-9]+' if isinstance(v, int) else r'-?[0-9]+\.[0-9]*([eE][-+]?[0-9]+)?|-?[0-9]+[eE][-+]?[0-9]+'
+            if not _re.fullmatch(pat, lit):
+                why = 'the literal %r is not a numeric literal of the target grammar' % lit
+            else:
+                got = (type(v).__name__, repr(type(v)(lit)))
+                if got != want:
+                    why = 'the literal %s denotes %s' % (lit if len(lit) < 60 else lit[:60] + '…', got[1])
+    if why is None and path == 'tostring':
+        from mindsdb_sql import parse_sql
+        try:
+            got = const_state(locate(position, parse_sql(sql, dialect)))
+        except Exception as e:
+            got = ('exc', type(e).__name__)
+        if got != want:
+            why = 'the %s parser reads %r there' % (dialect, got)
+    if why is None:
+        return None
+    shown = sql if sql is None or len(sql) < 200 else sql[:200] + '…'
+    return dict(kind='number', path=path, desc='%s constant %r in %s position, %s: %r — %s' % (
+        type(v).__name__, v, position, 'to_string()' if path == 'tostring' else dialect + ' rendering', shown, why),
+        dialect=dialect, position=position, value=repr(v), sql=sql, classes=[],
+        **{'class': 'number/%s/%s/NEW' % (path, type(v).__name__)})
+
+
 # ------------------------------------------------------------------ fallback path of the default get_string(ast)
 def refused_shapes():
     """trees the renderer refuses (NotImplementedError / SQLAlchemyError), each holding one constant"""
@@ -672,8 +780,47 @@ def run(chk):
             bump('typed/tostring/%s' % ('fail' if f else 'ok'))
             if f:
                 record(f)
-    # non-string constants: rendering must not raise and must not contain a quote issue (dates are quoted ISO text)
     from mindsdb_sql.parser.ast import Constant
+    # round 5: ints / floats of every magnitude.  (a) `float-print`: the model of float_to_str on the repr text vs
+    # Constant.to_string(); (b) exact read-back of the literal in every position, through to_string() + the three library
+    # parsers and through the six SQLAlchemy renderings
+    rngn = common.rng_for(chk.seed, 'C07/numbers')
+    _, numbers = number_values(rngn, quick)
+    floats = [v for v in numbers if isinstance(v, float)]
+    corr_f = [0, 0, None]
+    outs_f = None
+    try:
+        outs_f = common.lean_run('LexHist', ['fpos - ' + enc(repr(v)) for v in floats])
+    except Exception as e:
+        chk.oblige('corr:driver-float', 'correspondence', False, 'driver failed: %s' % e)
+    if outs_f is not None:
+        for v, o in zip(floats, outs_f):
+            corr_f[0] += 1
+            m = o.split(' ')
+            real = Constant(v).to_string()
+            if dec(m[0]) != real or m[1] == 'noparse' or m[2] != 'float':
+                corr_f[1] += 1
+                if corr_f[2] is None:
+                    corr_f[2] = dict(value=repr(v), model=dec(m[0])[:120], kind=m[1], token=m[2], impl=real[:120])
+        chk.corr_result('float-print', corr_f[0], corr_f[1], corr_f[2])
+    for i, v in enumerate(numbers):
+        full = i < 40 or i % (9 if quick else 3) == 0       # all positions x all dialects for a sub-stream
+        for pos in (POSITIONS if full else (POSITIONS[i % 5],)):
+            for d in (DIALECTS if full else (DIALECTS[i % 3],)):
+                chk.count(('number', 'tostring', d, pos, repr(v)))
+                f = probe_number_exact('tostring', d, pos, v)
+                bump('number/tostring/%s' % ('fail' if f else 'ok'))
+                if f:
+                    record(f)
+        if full or i % 4 == 0:
+            for d in (RENDER_DIALECTS if i < 40 else (RENDER_DIALECTS[i % 6],)):
+                pos = POSITIONS[(i // 3) % 5]
+                chk.count(('number', 'render', d, pos, repr(v)))
+                f = probe_number_exact('render', d, pos, v)
+                bump('number/render/%s' % ('fail' if f else 'ok'))
+                if f:
+                    record(f)
+    # non-string constants: rendering must not raise and must not contain a quote issue (dates are quoted ISO text)
     for v in other_constants():
         for d in RENDER_DIALECTS:
             for pos in ('where', 'insert'):
@@ -721,6 +868,8 @@ def replay_witness(w):
         return probe_typed(w['dialect'], w['position'], vals, w['path'])
     if w['kind'] == 'engine':
         return probe_sqlite_engine(sqlite3.connect(':memory:'), w['position'], w['value'])
+    if w['kind'] == 'number':
+        return probe_number_exact(w['path'], w['dialect'], w['position'], eval(w['value'], {}))
     return None
 
 
